@@ -293,6 +293,51 @@ impl DataInterchange for Json {
     }
 }
 
+/// Turn canonical JSON text as written by `canonicalize` (which uses the
+/// general-purpose JSON string escaping) into the form that is signed and
+/// hashed by the in-toto reference implementations (OLPC canonical JSON):
+/// only `\\` and `\"` stay escaped, every other escape sequence is replaced
+/// by the character it denotes.
+pub(crate) fn unescape_for_signing(canonical: &str) -> String {
+    let mut out = String::with_capacity(canonical.len());
+    let mut chars = canonical.chars();
+    while let Some(c) = chars.next() {
+        if c != '\\' {
+            out.push(c);
+            continue;
+        }
+        match chars.next() {
+            Some('\\') => out.push_str("\\\\"),
+            Some('"') => out.push_str("\\\""),
+            Some('n') => out.push('\n'),
+            Some('t') => out.push('\t'),
+            Some('r') => out.push('\r'),
+            Some('b') => out.push('\u{8}'),
+            Some('f') => out.push('\u{c}'),
+            Some('/') => out.push('/'),
+            Some('u') => {
+                let hex: String = chars.by_ref().take(4).collect();
+                match u32::from_str_radix(&hex, 16)
+                    .ok()
+                    .and_then(char::from_u32)
+                {
+                    Some(ch) => out.push(ch),
+                    None => {
+                        out.push_str("\\u");
+                        out.push_str(&hex);
+                    }
+                }
+            }
+            Some(other) => {
+                out.push('\\');
+                out.push(other);
+            }
+            None => out.push('\\'),
+        }
+    }
+    out
+}
+
 fn canonicalize(
     jsn: &serde_json::Value,
 ) -> std::result::Result<Vec<u8>, String> {
